@@ -412,8 +412,9 @@ package composite
 //@ ensures [C10:no-template-shares-its-patch-list-with-a-patch-set] err == nil ==> forall j :: 0 <= j && j < len(result) ==> callerfresh(result[j].Patches)
 
 //@ func composite.RenderFromJSON
-//@ props C10
+//@ props C10 C01
 //@ sweep
+//@ ensures [C01,C10:rendering-the-template-keeps-the-resources-name-and-namespace] err == nil ==> o.GetName() == old(o.GetName()) && o.GetNamespace() == old(o.GetNamespace())
 
 // Rendering reports success only if every single patch was applied without error (a failed
 // patch is never masked by a later one), and applies the patches of the right direction only.
